@@ -4,6 +4,7 @@
   CODE-DEPENDENT.
 -/
 import O1722.Refine.Can
+import O1722.Refine.Props
 import O1722.Refine.CanBrief
 import O1722.Refine.PropsVss
 import O1722.Props.Can
@@ -101,5 +102,11 @@ theorem C06_code_brief (p frameId src n variant : Nat) (hp0 : p ≠ 0) (hpb : p 
   rw [this]
   exact read_getElem m src n k hkn
 end
+
+/-! ### non-vacuity: the regenerated tables can be laid out as read-only data, so the hypotheses of
+    `C06_code`, `C06_code_brief`, `C09_code` are satisfiable (with `glob := fun _ => 4096`) -/
+example : RomTable (romOf 4096 Gen.can.table) 4096 Gen.can.table := romOf_table _ _ (by decide) (by decide) (by decide)
+example : RomTable (romOf 4096 Gen.canBrief.table) 4096 Gen.canBrief.table := romOf_table _ _ (by decide) (by decide) (by decide)
+example : RomTable (romOf 4096 Gen.vss.table) 4096 Gen.vss.table := romOf_table _ _ (by decide) (by decide) (by decide)
 
 end O1722.Refine
